@@ -7,7 +7,7 @@ From PV Require Import Gen.PinsC19.
 Import ListNotations.
 Theorem hand_modelled_sources_unchanged_C19 : PinsC19.pins = [
   ("src/pendulum/interval.py::Interval.__iter__"%string, "6e5c97c2ba21d74ea213"%string);
-  ("src/pendulum/interval.py::Interval.__contains__"%string, "b828f3d8b3eb44fab176"%string);
+  ("src/pendulum/interval.py::Interval.__contains__"%string, "aa064564af95312a3e03"%string);
   ("src/pendulum/interval.py::Interval.__new__"%string, "87853506c4af18f659e8"%string);
   ("src/pendulum/datetime.py::DateTime.add"%string, "f9e0754e563c868f30d8"%string);
   ("src/pendulum/datetime.py::DateTime.subtract"%string, "604ff496290ba1734411"%string)].
